@@ -71,7 +71,8 @@ func (a *Adapter) Batch(lines []string) ([]string, error) {
 	if err != nil {
 		return nil, fmt.Errorf("%s adapter: %v: %s", a.Name, err, firstLine(errb.String()))
 	}
-	res := strings.Split(strings.TrimRight(string(out), "\n"), "\n")
+	// Exactly one newline ends the output; an empty last answer is an answer.
+	res := strings.Split(strings.TrimSuffix(string(out), "\n"), "\n")
 	if len(res) != len(lines) {
 		return nil, fmt.Errorf("%s adapter: %d answers for %d questions (stderr: %s)", a.Name, len(res), len(lines), firstLine(errb.String()))
 	}
